@@ -31,6 +31,7 @@ func extraFacts(lf *leanFile) {
 	lf.def("fetchATCases", "List (String × List String)", "["+strings.Join(rows, ",\n   ")+"]")
 	ociFacts(lf)
 	retryFacts(lf)
+	remoteFacts(lf)
 }
 
 // ociFacts: structural facts about content/oci/oci.go that the OCI model is parameterised by.
